@@ -614,7 +614,7 @@ func runC18(c *Ctx) {
 			}
 			et := mc.Type().Underlying().(*types.Chan).Elem()
 			if types.Identical(et, types.Universe.Lookup("error").Type()) {
-				if la, ok := lenArg(mc.Size); ok && la == ssa.Value(getFirst.Params[1]) {
+				if la, ok := lenArg(mc.Size); ok && la == ssa.Value(param(getFirst, 1)) {
 					okErrC = true
 				}
 			} else if isNamed(et, "client", "Impl") {
